@@ -795,7 +795,7 @@ func runCore(seed uint64, n int, out *Out) {
 				if small && r.Chance(85) {
 					amount = r.Range(2, 40)
 					if r.Chance(60) {
-						ovS, ovRaw = decStr(big.NewInt(r.Pick([]int64{2, 3, 5, 10, 10, 20}) * 1e18)), ""
+						ovS, ovRaw = decStr(big.NewInt(r.Pick([]int64{2, 3, 5, 10, 10, 20})*1e18)), ""
 						ovRaw = sdkmath.LegacyMustNewDecFromStr(ovS).BigInt().String()
 					}
 				}
